@@ -175,17 +175,80 @@ func caseChild(o *vlib.Oracle, c *rec, cs Case) {
 	c.Eval(kind, strings.Join(cs.A, " "))
 	ch, panicked := safeChild(w, i)
 	got := o.MustAsk("child " + strings.Join(cs.A[:6], " ") + " " + cs.A[6])
-	if got == "outside" {
+	// "outside" = the model does not describe the VALUE gocoin returns here (stale coordinates of the point at
+	// infinity, keys of the wrong length). The real code has been run all the same and is judged below by the
+	// property's own predicate wherever BIP32 says what must come back; only the tie is skipped.
+	outside := got == "outside"
+	if outside {
 		c.Hit("outside-model")
-		return
+	}
+	// ---- BIP32 reference, independent of the model. refState:
+	//   defined      BIP32 defines the child: the real code must return exactly it
+	//   skip         BIP32 calls the index invalid (I_L >= n / key 0 / infinity): observation, see child_priv_never_skips
+	//   must-refuse  nothing may be derived: hardened index on a public key, unknown version bytes, or a public key
+	//                that is no curve point (first byte not 02/03, x >= p, x^3+7 no square)
+	//   parent-invalid  private parent outside 1..n-1 or of the wrong length (documented junk region)
+	var x *refXKey
+	refState := "parent-invalid"
+	if priv {
+		if len(w.Key) == 33 && keyInRange(w.Key[1:]) {
+			var err error
+			if x, err = refCKDpriv(toRef(w), i); err != nil {
+				refState = "skip"
+				c.Hit("bip32-skip-case")
+			} else {
+				refState = "defined"
+			}
+		} else {
+			c.Hit("child-priv-parent-outside-1..n-1")
+		}
+	} else if !btc.IsPublicHDPrefix(w.Prefix) {
+		refState = "must-refuse"
+	} else {
+		var err error
+		x, err = refCKDpub(toRef(w), i)
+		switch {
+		case err == nil:
+			refState = "defined"
+		case err == errRefSkip:
+			refState = "skip"
+			c.Hit("bip32-skip-case")
+		default:
+			refState = "must-refuse"
+			if i < 0x80000000 {
+				c.Hit("child-pub-parent-not-a-point")
+			}
+		}
 	}
 	if panicked {
 		c.Hit("child-panic")
-		if got != "panic" {
-			c.TieFail("child", "real Child panics, model says "+got, cs)
-		} else {
-			c.TieOK()
+		if refState == "defined" {
+			c.PropFail("child-panics-on-valid", "HDWallet.Child panics although BIP32 defines this child", cs)
+			return
 		}
+		if !outside {
+			if got != "panic" {
+				c.TieFail("child", "real Child panics, model says "+got, cs)
+			} else {
+				c.TieOK()
+			}
+		}
+		return
+	}
+	if refState == "must-refuse" {
+		// finding xpub-noncanonical-x (fixed): Child on 02||(p+1) returned 33 zero bytes without any error
+		c.PropFail("child-of-invalid-xpub", "HDWallet.Child returns a key ("+hx(ch.Key)+") where BIP32 derives nothing (hardened index on a public key, or a public key that is no curve point)", cs)
+		return
+	}
+	if refState == "defined" && !sameRef(ch, x) {
+		if priv {
+			c.PropFail("ckd-priv-spec", "HDWallet.Child (private) differs from BIP32 CKDpriv", cs)
+		} else {
+			c.PropFail("ckd-pub-spec", "HDWallet.Child (public) differs from BIP32 CKDpub", cs)
+		}
+	}
+	if outside {
+		c.Hit("outside-model-real-code-judged-" + refState)
 		return
 	}
 	str := safeStr(ch.String)
@@ -196,24 +259,6 @@ func caseChild(o *vlib.Oracle, c *rec, cs Case) {
 	}
 	if len(ch.Key) == 33 && ch.Key[0] == 0 && ch.Key[1] == 0 {
 		c.Hit("child-key-leading-zero")
-	}
-	// BIP32 reference
-	if priv {
-		if keyInRange(w.Key[1:]) {
-			x, err := refCKDpriv(toRef(w), i)
-			if err != nil {
-				c.Hit("bip32-skip-case")
-			} else if !sameRef(ch, x) {
-				c.PropFail("ckd-priv-spec", "HDWallet.Child (private) differs from BIP32 CKDpriv", cs)
-			}
-		}
-	} else {
-		x, err := refCKDpub(toRef(w), i)
-		if err != nil {
-			c.Hit("bip32-skip-case")
-		} else if !sameRef(ch, x) {
-			c.PropFail("ckd-pub-spec", "HDWallet.Child (public) differs from BIP32 CKDpub", cs)
-		}
 	}
 	// serialization round trip on the real code
 	back, err := btc.StringWallet(str)
@@ -364,18 +409,46 @@ func caseDnPub(o *vlib.Oracle, c *rec, cs Case) {
 	p, s := unhx(cs.A[0]), unhx(cs.A[1])
 	c.Eval("derive-next-public", cs.A[0]+cs.A[1])
 	got := o.MustAsk("dnpub " + hx(p) + " " + hx(s))
-	if got == "outside" {
-		c.Hit("outside-model")
+	outside := got == "outside"
+	if outside {
+		c.Hit("outside-model") // the real code is run and judged all the same
+	}
+	var real []byte
+	pan := ""
+	func() {
+		defer func() {
+			if x := recover(); x != nil {
+				pan = fmt.Sprint(x)
+			}
+		}()
+		real = btc.DeriveNextPublic(append([]byte{}, p...), append([]byte{}, s...))
+	}()
+	P, ok := refParse(p)
+	if pan != "" {
+		c.Hit("dnpub-panic")
+		if ok {
+			c.PropFail("derive-next-public", "DeriveNextPublic panics on a valid point: "+pan, cs)
+		} else if !outside {
+			c.TieFail("dnpub", "DeriveNextPublic panics ("+pan+"), model: "+got, cs)
+		}
 		return
 	}
-	real := btc.DeriveNextPublic(append([]byte{}, p...), append([]byte{}, s...))
-	if P, ok := refParse(p); ok {
+	if ok {
 		want := refSer(refAdd(refMul(new(big.Int).SetBytes(s), refPt{refGx, refGy}), P))
-		if want != nil && !bytes.Equal(real, want) {
+		if want == nil {
+			c.Hit("dnpub-sum-infinity") // gocoin serialises stale coordinates (documented observation)
+		} else if !bytes.Equal(real, want) {
 			c.PropFail("derive-next-public", "DeriveNextPublic != secret*G + P", cs)
 		}
 	} else {
 		c.Hit("dnpub-unparsable")
+		// no point goes in, so no point may come out: whatever is returned must not read as a public key
+		if _, isPt := refParse(real); isPt {
+			c.PropFail("derive-next-public-invalid", "DeriveNextPublic returns a valid-looking key "+hx(real)+" for an input that is no curve point", cs)
+		}
+	}
+	if outside {
+		return
 	}
 	if got != "ok "+hx(real) {
 		c.TieFail("dnpub", "model deriveNextPublic differs: "+got+" vs "+hx(real), cs)
@@ -430,6 +503,35 @@ func caseParse(o *vlib.Oracle, c *rec, cs Case) {
 		if w.String() != s && string(refB58Encode(refB58Decode(s))) == s {
 			c.PropFail("parse-reserialize", "accepted extended key does not re-serialise to itself", cs)
 		}
+		if btc.IsPublicHDPrefix(w.Prefix) {
+			// BIP32: "verify whether the X coordinate in the public key data corresponds to a point on the curve".
+			// Finding xpub-noncanonical-x (fixed): ByteCheck ignored ParsePubkey's verdict, 02||(p+1) was accepted.
+			if _, isPt := refParse(w.Key); !isPt {
+				c.PropFail("xpub-noncanonical-x", "StringWallet accepts an extended PUBLIC key whose key bytes "+hx(w.Key)+" are no curve point (x >= p, x^3+7 no square, or first byte not 02/03)", cs)
+				return
+			}
+			// an accepted xpub derives its non-hardened children, and each child's own string re-imports to it
+			c.Hit("parse-ok-xpub-child-checked")
+			for _, ci := range []uint32{0, 0x7fffffff} {
+				ch, pn := safeChild(w, ci)
+				x, err := refCKDpub(toRef(w), ci)
+				if err != nil {
+					continue // BIP32 skip case
+				}
+				if pn || !sameRef(ch, x) {
+					c.PropFail("xpub-child", fmt.Sprintf("child %d of an accepted extended public key is not BIP32 CKDpub (panic=%v)", ci, pn), cs)
+					break
+				}
+				back, err := btc.StringWallet(ch.String())
+				if err != nil || !sameW(back, ch) {
+					c.PropFail("xpub-child-reimport", fmt.Sprintf("child %d of an accepted extended public key does not re-import: %v", ci, err), cs)
+					break
+				}
+			}
+		} else if len(w.Key) == 33 && (w.Key[0] != 0 || !keyInRange(w.Key[1:])) {
+			// BIP32 test vector 5 calls such xprv strings invalid; gocoin imports them (mirrored by the model)
+			c.Hit("parse-ok-xprv-key-outside-1..n-1")
+		}
 	}
 }
 
@@ -440,14 +542,13 @@ func caseWif(o *vlib.Oracle, c *rec, cs Case) {
 	compr := cs.A[2] == "1"
 	c.Eval("wif", strings.Join(cs.A, " "))
 	got := o.MustAsk("wifenc " + hx(key) + " " + cs.A[1] + " " + cs.A[2])
-	if got == "outside" {
-		c.Hit("outside-model")
-		return
-	}
 	pa := btc.NewPrivateAddr(append([]byte{}, key...), byte(ver), compr)
 	s := pa.String()
 	want := fmt.Sprintf("ok %s %s %s %d", hx([]byte(s)), hx(pa.Pubkey), hx(pa.Hash160[:]), pa.BtcAddr.Version)
-	if got != want {
+	if got == "outside" {
+		// key = 0 mod n: gocoin's public key there is stale coordinates (not modelled); string and round trip are judged below
+		c.Hit("outside-model")
+	} else if got != want {
 		c.TieFail("wif", "model WIF encoding differs: "+got+" vs "+want, cs)
 	} else {
 		c.TieOK()
@@ -460,7 +561,9 @@ func caseWif(o *vlib.Oracle, c *rec, cs Case) {
 	if s != refB58Check(pl) {
 		c.PropFail("wif-spec", "PrivateAddr.String is not Base58Check(ver||key||[01])", cs)
 	}
-	if compr && !bytes.Equal(pa.Pubkey, refPub(key)) {
+	if rp := refPub(key); rp == nil {
+		c.Hit("wif-key-zero-mod-n")
+	} else if compr && !bytes.Equal(pa.Pubkey, rp) {
 		c.PropFail("pubkey-spec", "public key of a private key differs from the reference curve", cs)
 	}
 	back, err := btc.DecodePrivateAddr(s)
@@ -474,9 +577,9 @@ func caseWifDec(o *vlib.Oracle, c *rec, cs Case) {
 	s := string(unhx(cs.A[0]))
 	c.Eval("wif-decode", cs.A[0])
 	got := o.MustAsk("wifdec " + hx([]byte(s)))
-	if got == "outside" {
+	outside := got == "outside" // accepted by the model, key = 0 mod n: only the public key is not modelled
+	if outside {
 		c.Hit("outside-model")
-		return
 	}
 	var pa *btc.PrivateAddr
 	var err error
@@ -526,6 +629,12 @@ func caseWifDec(o *vlib.Oracle, c *rec, cs Case) {
 			return
 		}
 		want := fmt.Sprintf("ok %s %d %s %s %d", hx(pa.Key), pa.Version, hx(pa.Pubkey), hx(pa.Hash160[:]), pa.BtcAddr.Version)
+		if outside {
+			if pl := refB58Decode(s); len(pl) < 33 || !bytes.Equal(pa.Key, pl[1:33]) || refPub(pa.Key) != nil {
+				c.TieFail("wifdec", "model calls the key 0 mod n, the real code decodes "+hx(pa.Key), cs)
+			}
+			return
+		}
 		if got != want {
 			c.TieFail("wifdec", "model decodePrivateAddr differs: "+got+" vs "+want, cs)
 		} else {
